@@ -104,7 +104,7 @@ KINDS = ['leafP', 'derivedP', 'leafE', 'derivedE', 'prodE', 'consLeaf', 'consDer
 
 
 MIXED_KINDS = ['mixedP', 'mixedPrev', 'mixedE', 'mixedErev', 'mixedProd', 'mixedProdRev', 'mixedGrad', 'mixedCons',
-               'mixedConsRev', 'mixedLmi', 'mixedLmiLate']
+               'mixedConsRev', 'mixedLmi', 'mixedLmiLate', 'valuedP', 'valuedPnew', 'valuedE', 'valuedCons']
 
 
 def make_objects(env, pep):
@@ -223,6 +223,9 @@ def prog_access(env, case):
             'mixedCons': ((f0 >= f1), ['eval', 'eval_dual']), 'mixedConsRev': ((f1 <= f0 + t2), ['eval', 'eval_dual']),
             'mixedLmi': (PSDMatrix([[f0 - fs, f0 - f1], [f0 - f1, 1.]]), ['eval', 'eval_dual']),
             'mixedLmiLate': (PSDMatrix([[1., f0 - fs], [f0 - fs, t2]]), ['eval', 'eval_dual']),
+            # objects made only of leaves the solve DID value keep their value when the model grows
+            'valuedP': (x1, ['eval']), 'valuedPnew': (x0 - 2 * g1_old, ['eval']),
+            'valuedE': ((x1 - model['xs']) ** 2, ['eval']), 'valuedCons': (model['c_prod'], ['eval']),
         }
         if moment == 'extended-then-failed':
             pep.set_performance_metric(t2)        # a free leaf in the objective: the re-solve is unbounded
@@ -240,6 +243,21 @@ def prog_access(env, case):
         obj, accs = f.list_of_class_constraints[0], ['eval', 'eval_dual']
     else:
         obj, accs = objs[kind]
+    if kind.startswith('valued'):
+        for acc in accs:
+            try:
+                getattr(obj, acc)()
+                env.claims += 1
+                if env.sym:
+                    env.proved += 1
+            except Exception as ex:
+                if isinstance(ex, (E.Abort,)):
+                    raise
+                env.check(False, "%s.%s() raised %s although every leaf the object is made of was valued by the solve (the "
+                          "model was only extended by new leaves afterwards): %s"
+                          % (type(obj).__name__, acc, type(ex).__name__, str(ex)[:120]),
+                          signature=tag + ":" + acc + ":raises-" + type(ex).__name__)
+        return "%s %s" % (moment, kind)
     for acc in accs:
         expect_value_error(env, obj, acc, tag + ":" + acc)
     if kind == 'classCons':
@@ -443,7 +461,7 @@ def cases(tier):
         cs.append(dict(id="newpep-%s" % kind, kind='access', moment='new-pep', objkind=kind, **common))
     for kind in MIXED_KINDS:
         cs.append(dict(id="extended-%s" % kind, kind='access', moment='extended-after-solve', objkind=kind, **common))
-        if tier == 'thorough' or kind in ('mixedE', 'mixedProd', 'mixedCons', 'mixedLmi'):
+        if tier == 'thorough' or kind in ('mixedE', 'mixedProd', 'mixedCons', 'mixedLmi', 'valuedP'):
             cs.append(dict(id="extended-failed-%s" % kind, kind='access', moment='extended-then-failed', objkind=kind, **common))
     for be in ('cvxpy', 'mosek'):
         cs.append(dict(id="status-%s" % be, kind='status', backend=be, statuses=('optimal',) + BAD, **common))
